@@ -130,7 +130,7 @@ def quat_log_principal(w, rep, rule, prefix=""):
             rep.incomplete(rule, inst, "cannot decide: %s" % d, where=W)
 
 
-def roundtrip_cases(w, rep, inst, got, want, where, msg):
+def roundtrip_cases(w, rep, inst, got, want, where, msg, beyond_pi_rows=None):
     """Round trip decided on every selection of the if_else conditions and every sign of symbols under fabs/sign."""
     bs = branches(got, limit=3)
     if bs is None:
@@ -150,6 +150,10 @@ def roundtrip_cases(w, rep, inst, got, want, where, msg):
             continue
         allok = False
         label = inst if desc == "-" else "%s [selection %s]" % (inst, desc[:70])
+        if v == UNKNOWN and beyond_pi_rows:
+            m = beyond_pi_difference(gb, want, beyond_pi_rows)
+            if m:
+                v, d = DIFFERENT, m
         if v == DIFFERENT:
             rep.fail("C03.roundtrip", label, "%s: %s" % (msg, d), where=where)
         else:
@@ -226,7 +230,8 @@ def check_logs(w, rep, tier):
         X, xp = w.fresh(G2, "X")
         ok, back = guarded(w, rep, "C03.roundtrip", "SE2 exp(log(X))", lambda: closed(w, w.param(w.call(G2, "exp", w.call(X, "log")))))
         if ok:
-            roundtrip_cases(w, rep, "SE2: exp(log(X)) = X", back, xp, w.method_where(G2, "log")[:2], "SE(2) log does not invert exp")
+            # the translation rows of X are exact for every heading, also one given beyond pi (the heading row is an angle)
+            roundtrip_cases(w, rep, "SE2: exp(log(X)) = X", back, xp, w.method_where(G2, "log")[:2], "SE(2) log does not invert exp", beyond_pi_rows=[0, 1])
         se2 = w.G("se2")
         y = w.sym("y", 3)
         ok, back = guarded(w, rep, "C03.roundtrip", "SE2 log(exp(x))", lambda: closed(w, w.param(w.call(w.call(G2, "exp", w.elem(se2, y)), "log"))))
